@@ -21,6 +21,8 @@ import ZlModel.Thresholds
 import ZlModel.Der
 import ZlModel.JsonString
 import ZlModel.RegSeq
+import ZlModel.LintLogic
+import ZlModel.Generated.Bodies
 open Zl Zl.Proto
 
 namespace Zl.Driver
@@ -477,6 +479,47 @@ def opRegSeq (fields : List String) : String :=
     ";".intercalate (RegSeq.run {} ops)
   | _ => "bad-op"
 
+/-! ### translated rule bodies (lint-logic terms regenerated from the Go source) -/
+
+def parsePairs (s : String) (sep : String) : List (Nat × String) :=
+  if s == "." then [] else
+  (s.splitOn sep).filterMap (fun p => match p.splitOn "=" with
+    | [k, v] => k.toNat?.map (fun n => (n, v))
+    | _ => none)
+
+def parseListVal (s : String) : LL.ListVal :=
+  match s.splitOn "|" with
+  | [nilS, lenS, elems] =>
+    let es := if elems == "" then [] else elems.splitOn ":"
+    { isNil := nilS == "1", len := lenS.toNat?.getD 0,
+      strs := es.map (fun e => if e == "-" then [] else (unhexBytes e).getD []),
+      oids := es.map (fun e => if e == "e" then [] else parseOid e),
+      ints := es.filterMap (·.toInt?) }
+  | _ => {}
+
+def opBodies (fields : List String) : String :=
+  match fields with
+  | [bools, ints, strs, lists, exts] =>
+    let v : LL.View := {
+      bools := (parsePairs bools ",").map (fun p => (p.1, p.2 == "1"))
+      ints := (parsePairs ints ",").map (fun p => (p.1, p.2.toInt?.getD 0))
+      strs := (parsePairs strs ",").map (fun p => (p.1, if p.2 == "-" then [] else (unhexBytes p.2).getD []))
+      lists := (parsePairs lists ";").map (fun p => (p.1, parseListVal p.2))
+      exts := if exts == "." then [] else (exts.splitOn ",").filterMap (fun p => match p.splitOn "=" with
+        | [o, c] => some (if o == "e" then [] else parseOid o, c == "1")
+        | _ => none) }
+    -- every field the table names must be in the view: a missing field is an error, never a default
+    let have_ (k : Nat) (kind : String) : Bool :=
+      if kind == "bool" then v.bools.any (·.1 == k) else if kind == "int" then v.ints.any (·.1 == k)
+      else if kind == "str" then v.strs.any (·.1 == k) else v.lists.any (·.1 == k)
+    let missing := ((List.range Generated.bodyFieldNames.length).zip Generated.bodyFieldNames).filter (fun p => !have_ p.1 p.2.2)
+    if !missing.isEmpty then "missing-field " ++ " ".intercalate (missing.map (·.2.1)) else
+    ",".intercalate (Generated.bodyRules.map (fun r => match r.run v with
+      | .panic => "P"
+      | .notApplicable => "N"
+      | .result s => toString s))
+  | _ => "bad-op"
+
 def step (line : String) : String :=
   match line.splitOn "\t" with
   | "fw" :: rest => opFw rest
@@ -512,6 +555,7 @@ def step (line : String) : String :=
     b2s (isRootCA v) ++ b2s (isSubCA v) ++ b2s (isSubscriberCert v)
   | "regseq" :: rest => opRegSeq rest
   | "names" :: rest => opNames rest
+  | "bodies" :: rest => opBodies rest
   | "thr-val" :: rest => opThr "thr-val" rest
   | "thr-rc" :: rest => opThr "thr-rc" rest
   | "thr-gn" :: rest => opThr "thr-gn" rest
